@@ -1,6 +1,7 @@
 package main
 
 import (
+	"os"
 	"encoding/json"
 	"errors"
 	"fmt"
@@ -199,6 +200,9 @@ func runUMFull(c UCase) (Case, unmarshaler.UnmarshaledError) {
 				first = cur
 			} else if cur != first {
 				stable = false
+				if os.Getenv("VERIF_DEBUG_STABLE") != "" {
+					fmt.Fprintf(os.Stderr, "UNSTABLE\n first: %s\n  this: %s\n", first, cur)
+				}
 			}
 		}()
 	}
